@@ -163,6 +163,17 @@ def gen_each_solve(tier, rng):
         nv = 3 if (c.count("|") == 2 and "(" not in c.split(";")[0]) else 0      # factory declarations: the number of handles varies
         e = "enum" if r < 0.75 else "first" if (r < 0.85 or nv == 0) else "%s x%d" % (rng.choice(["min", "max"]), rng.randrange(nv))
         out.append(c + " ; " + e)
+        # the same call on variables PINNED beforehand by top-level `x == c` posts (the declared range stays, the current
+        # domain is a single value): what validation and the posting helpers read must be the current domain (seed C02d)
+        parts = [p.strip() for p in c.split(";")]
+        if nv == 3 and len(parts) == 2 and rng.random() < 0.12:
+            doms = parts[0].split("|")
+            pins = []
+            for i in rng.sample(range(3), rng.choice([1, 2, 2, 3])):
+                vals = c10.dom_values(doms[i]) if hasattr(c10, "dom_values") else None
+                v = rng.choice(vals) if vals else rng.randint(-1, 3)
+                pins.append("new eq(x%d,%d)" % (i, v))
+            out.append(" ; ".join([parts[0]] + pins + [parts[1], e]))
     return out
 
 # ---------------------------------------------------------------- random programs mixing routes and fluent constraints
@@ -188,6 +199,12 @@ def rand_prog(rng, maxprod=400, malformed=False):
         return ",".join(f() for _ in range(n)) if n else "-"
     def op(): return anyv() if rng.random() < 0.75 else "c:%d" % rng.randint(-3, 4)
     def K(): return rng.randint(-2, 4)
+    # pins: top-level `x == c` posts on declared variables BEFORE the calls (materialised at once / narrowed by
+    # infer_unbounded_from_asts while the declared range stays what it was): validation pre-checks and result bounds
+    # must read the CURRENT domain (seeded change C02d read the declared lower bound of a fixed variable)
+    if rng.random() < 0.3:
+        for _ in range(rng.randint(1, 3)):
+            posts.append("new eq(x%d,%d)" % (rng.randrange(len(kinds)), rng.randint(-1, 5)))
     for _ in range(rng.randint(1, 4)):
         r = rng.random()
         if r < 0.22:
